@@ -5,6 +5,7 @@ import (
 	"go/constant"
 	"go/token"
 	"go/types"
+	"sort"
 	"strings"
 
 	"golang.org/x/tools/go/ssa"
@@ -175,10 +176,14 @@ func ruleC05Liveness(r *Run, p *Program, rule string) {
 		fn := fieldName(st.Addr)
 		if fn == "pogreb.slot.segmentID" || fn == "pogreb.slot.offset" {
 			stores = append(stores, st)
-			if c, idx := callResult(st.Val); c == wr {
-				got[fn] = fmt.Sprint(idx)
-			} else {
-				got[fn] = "other"
+			got[fn] = "other"
+			if c, _ := valueComponent(st.Val); c == wr {
+				switch locKind(st.Val, 0) {
+				case "id":
+					got[fn] = "0"
+				case "off":
+					got[fn] = "1"
+				}
 			}
 		}
 	})
@@ -278,6 +283,11 @@ func ruleC03CompactComplete(r *Run, p *Program, rule string) {
 			}
 			return globalLoad(cd.X) == "pogreb.ErrIterationDone" || globalLoad(cd.Y) == "pogreb.ErrIterationDone"
 		})
+		if !okv {
+			// the loop may be driven from a step closure or helper: interprocedurally, with the edges
+			// "err == ErrIterationDone" of the record loop removed, the removal must be unreachable
+			okv = !reachableWithoutDone(p, f, c)
+		}
 		r.check(okv, rule, funcKey(f)+":remove-after-done", p.Pos(c.Pos()), "removeSegment(source) is reachable only after the per-record step returned ErrIterationDone", "the source segment can be removed before every record of it was processed (the copy loop can be left by another exit): live records are lost")
 		// it removes the source, not something else
 		src := false
@@ -324,6 +334,43 @@ func ruleC03CompactComplete(r *Run, p *Program, rule string) {
 		}
 		r.universe(rule+":done-returns", n, 1)
 	}
+}
+
+// reachableWithoutDone: can `target` (in root) be reached from root's entry when every edge on which a value equals
+// ErrIterationDone is removed in the frames of the record loop (functions that, with their closures, call
+// segmentIterator.next directly)? Path facts correlate a step's (more, err) results.
+func reachableWithoutDone(p *Program, root *ssa.Function, target ssa.Instruction) bool {
+	loopFrame := map[*ssa.Function]bool{}
+	top := func(f *ssa.Function) *ssa.Function {
+		for f.Parent() != nil {
+			f = f.Parent()
+		}
+		return f
+	}
+	for _, g := range p.ModuleFuncs("") {
+		instrsOf(g, func(in ssa.Instruction) {
+			if c, ok := in.(*ssa.Call); ok && calleeKey(&c.Call) == "(*pogreb.segmentIterator).next" {
+				loopFrame[top(g)] = true
+			}
+		})
+	}
+	w := &IPWalk{P: p, SkipEdge: func(ctx *Ctx, b *ssa.BasicBlock, k int) bool {
+		if !loopFrame[top(ctx.Fn)] {
+			return false
+		}
+		cd := edgeCond(b, k)
+		if cd == nil {
+			return false
+		}
+		eq, ok := cd.holdsEq()
+		if !ok || !eq {
+			return false
+		}
+		return globalLoad(cd.X) == "pogreb.ErrIterationDone" || globalLoad(cd.Y) == "pogreb.ErrIterationDone"
+	}}
+	rc := &Ctx{Fn: root}
+	w.Run(rc, nil)
+	return w.Reached[Node{rc, target}]
 }
 
 // ruleC03OlderFirst: a segment with delete records is compacted only together with every older segment, oldest first.
@@ -442,6 +489,119 @@ func ruleC03OlderFirst(r *Run, p *Program, rule string) {
 			}
 		})
 		r.check(okr, rule, "(*pogreb.DB).Compact:front-to-back", p.Pos(g.Pos()), "Compact processes the picked segments in slice order with an ascending index", "Compact does not process the picked segments front to back (oldest first)")
+		// and the picked slice is only read between the pick and the loop: nothing can reorder it
+		instrsOf(g, func(in ssa.Instruction) {
+			pc, ok := in.(*ssa.Call)
+			if !ok || calleeKey(&pc.Call) != "(*pogreb.DB).pickForCompaction" || pc.Referrers() == nil {
+				return
+			}
+			var esc []string
+			var visit func(v ssa.Value, d int)
+			visit = func(v ssa.Value, d int) {
+				if d > 4 || v.Referrers() == nil {
+					return
+				}
+				for _, u := range *v.Referrers() {
+					switch x := u.(type) {
+					case *ssa.DebugRef:
+					case *ssa.IndexAddr:
+						for _, w := range *x.Referrers() {
+							if st, ok := w.(*ssa.Store); ok && st.Addr == ssa.Value(x) {
+								esc = append(esc, p.Pos(st.Pos())+": element store")
+							}
+						}
+					case *ssa.Phi:
+						visit(x, d+1)
+					case *ssa.Range, *ssa.Slice:
+						if sv, ok := u.(ssa.Value); ok {
+							visit(sv, d+1)
+						}
+					case *ssa.Call:
+						if b, ok := x.Call.Value.(*ssa.Builtin); ok && (b.Name() == "len" || b.Name() == "cap") {
+							continue
+						}
+						esc = append(esc, p.Pos(x.Pos())+": passed to "+callString(&x.Call))
+					case *ssa.MakeInterface:
+						if x.Referrers() != nil {
+							for _, w := range *x.Referrers() {
+								if c, ok := w.(*ssa.Call); ok {
+									esc = append(esc, p.Pos(c.Pos())+": passed to "+callString(&c.Call))
+								}
+							}
+						}
+					case *ssa.Store:
+						// a local variable cell (the variable is captured by a closure): follow its loads
+						if al, ok := x.Addr.(*ssa.Alloc); ok && x.Val == v && al.Referrers() != nil {
+							for _, w := range *al.Referrers() {
+								switch y := w.(type) {
+								case *ssa.UnOp:
+									visit(y, d+1)
+								case *ssa.Store:
+									if y != x {
+										esc = append(esc, p.Pos(y.Pos())+": variable reassigned")
+									}
+								}
+							}
+							continue
+						}
+						esc = append(esc, p.Pos(x.Pos())+": stored")
+					default:
+						if _, isCmp := u.(*ssa.BinOp); isCmp {
+							continue
+						}
+						esc = append(esc, p.Pos(u.Pos())+": "+fmt.Sprintf("%T", u))
+					}
+				}
+			}
+			visit(pc, 0)
+			sort.Strings(esc)
+			r.check(len(esc) == 0, rule, "(*pogreb.DB).Compact:order-kept", p.Pos(pc.Pos()),
+				"between pickForCompaction and the loop the picked slice is only indexed and measured: its oldest-first order is what the loop sees",
+				"the picked slice is handed to code that can reorder or rewrite it before the loop ("+strings.Join(esc, "; ")+"): a segment whose delete records are dropped may then be compacted (and unlinked) before an older segment that still holds the put they shadow; a crash or a Backup in between resurrects the deleted key")
+		})
+	}
+	// every pick passed the delete-records test: a segment is added to the picked set only where the test
+	// "holds delete records" was evaluated for it and was false (the true branch returns the whole prefix instead)
+	{
+		isNoDel := func(c *Cond) bool {
+			if !isFieldLoad(c.X, "pogreb.segmentMeta.DeleteRecords") {
+				return false
+			}
+			k, ok := constInt(c.Y)
+			if !ok || k != 0 {
+				return false
+			}
+			switch c.Op {
+			case token.GTR, token.NEQ:
+				return !c.Pos
+			case token.LEQ, token.EQL:
+				return c.Pos
+			}
+			return false
+		}
+		np := 0
+		instrsOf(f, func(in ssa.Instruction) {
+			c, ok := in.(*ssa.Call)
+			if !ok {
+				return
+			}
+			b, ok := c.Call.Value.(*ssa.Builtin)
+			if !ok || b.Name() != "append" || !inCycle(c.Block()) {
+				return
+			}
+			if et, ok := c.Type().Underlying().(*types.Slice); !ok || typeName(derefType(et.Elem())) != "pogreb.segment" {
+				return
+			}
+			// the prefix construction on the delete branch is checked above
+			if sl, ok := strip(c.Call.Args[0]).(*ssa.Slice); ok && strip(sl.X) == ssa.Value(order) {
+				return
+			}
+			np++
+			r.check(controlledBy(f, c, isNoDel), rule, funcKey(f)+":pick-after-delete-test", p.Pos(c.Pos()),
+				"a segment is added to the picked set only after the test 'holds delete records' was evaluated false for it",
+				"a segment can be picked without passing the test 'holds delete records -> pick every older segment too': its delete records are dropped while an older, unpicked segment still holds the put records they shadow; recovery and Backup (which replay the log) resurrect the deleted keys")
+		})
+		r.universe(rule+":picks", np, 1)
 	}
 }
 
